@@ -24,6 +24,10 @@ CLAIMS = {
         text="TLC proves AuditSound (accepted => every leaf committed by the start hash is still committed by the end hash) for every depth-3 tree with <= 3 leaves and every adversarial proof assembled from its real nodes and arbitrary inserted elements (shadowing, extending, duplicated, overlapping labels), with the end hash chosen by the server; every candidate is run through the real auditor and TLC validates verdict, surviving nodes and soundness; inconsistent hash/epoch/proof lists and replaced digests are replayed on honest proofs and must be rejected."),
     "C17": dict(cat="model_checking", design="5/C17", technique="TLA+ spec AkdLabels (bit-string semantics) + TLC proving its algebraic laws exhaustively on small domains; all real NodeLabel / AzksElementSet results on stretched labels validated by TLC (TraceLabels)",
         text="AkdLabels is the bit-string meaning; TLC proves its laws for all labels <= 6 bits and all small sets, and validates the recorded results of the real is_prefix_of, get_longest_common_prefix, get_prefix, get_prefix_ordering, cmp for all pairs of labels <= 6 model bits under 10-40 stretch maps (real lengths 0..256 around every byte boundary, adversarial fillers, garbage beyond label_len) and of AzksElementSet partition / common prefix / contains_prefix in both representations for all small sets."),
+    "C15": dict(cat="model_checking", design="5/C15", technique="TLA+ spec AkdStorage (manager, transaction, database user-state queries transcribed) + TLC; explored operation sequences replayed on the real StorageManager; every read validated by TLC (TraceStorage)",
+        text="TLC explores all well-formed sequences of set / batch_set / begin / commit / rollback / tombstone / rejected writes within the bound and proves that inside a transaction every read (get, batch get, user data, user state under each retrieval flag, bulk versions for every user subset) equals the same read on the committed state; the transitions are replayed on a real StorageManager and TLC validates every recorded answer against the specification and against the post-commit read, and that the commit hands the database exactly the pending records with the epoch record last."),
+    "C16": dict(cat="model_checking", design="5/C16", technique="TLA+ spec AkdStorage with cache, expiry (Tick), eviction (Pressure), rejected writes and flush + TLC (CacheTransparent); replay on real cached managers with real sleeps; every read validated by TLC against the cache-free state (TraceStorage)",
+        text="TLC proves CacheTransparent (a read through the manager returns the pending transaction value or what the database holds) in every reachable state of the cached manager model including expiry, memory-pressure eviction, disabled cleaning, rejected database writes and flushes; explored behaviours are replayed on real managers with default, 2 ms-lifetime and 300-byte caches with the full query sweep after every step, and TLC validates every read against the cache-free specification state and get_direct against the database."),
 }
 
 def main():
